@@ -18,7 +18,7 @@ PID = 'C01'
 RULE = ('cases = (package, extinction law, A_V range, sources) drawn from the quantifier of C01; a case is '
         'non-trivial when at least one model is fitted with >=2 fitted bands of distinct extinction coefficient; '
         'distinct = distinct canonical hash of the generated inputs')
-REQUIRED_BRANCHES = ['rebuilt_in_place', 'wav_filter_other_unit', 'pkg_v1_mJy', 'pkg_v1_Jy', 'pkg_cube', 'pkg_cube_memmap', 'range_end_zero', 'law_other_unit', 'clamp_low', 'clamp_high', 'interior', 'lo_eq_hi', 'limit_violated', 'limit_ok', 'flag4', 'flag0or9']
+REQUIRED_BRANCHES = ['wav_filter_off_grid', 'rebuilt_in_place', 'wav_filter_other_unit', 'pkg_v1_mJy', 'pkg_v1_Jy', 'pkg_cube', 'pkg_cube_memmap', 'range_end_zero', 'law_other_unit', 'clamp_low', 'clamp_high', 'interior', 'lo_eq_hi', 'limit_violated', 'limit_ok', 'flag4', 'flag0or9']
 ASSUMPTIONS = ['IEEE rounding is not modelled: comparison tolerance 1e-9 x condition number',
                'decisions closer than 1e-7 to their threshold are compared in relaxed mode']
 N = {'quick': 160, 'thorough': 12000}
@@ -90,7 +90,16 @@ def gen_case(rng, directed=None):
     # a share of cases first builds and fits a DIFFERENT package in the same directory (a package regenerated in
     # place within one process), so that anything remembered across packages by path would show
     rebuild = rng.random() < 0.25
-    return dict(kind=kind, wavs=wavs, tab_w=tw, tab_chi=chi, wav_unit=wav_unit, models=models, av=av, sources=sources,
+    # ... and need not coincide with a tabulated wavelength: the nearest slice is used, while the extinction
+    # coefficient is evaluated at the requested wavelength.  Offsets stay well inside half the gap to the next
+    # tabulated wavelength.
+    allw = sorted(wavs + [min(wavs) / 3., max(wavs) * 3.])
+    req = []
+    for w in wavs:
+        gap = min(abs(w - x) for x in allw if x != w)
+        off = rng.choice([0., 0., 0.3, -0.3, 0.1, -0.45]) * gap
+        req.append(float('%.6g' % (w + off)))
+    return dict(req_wavs=req, kind=kind, wavs=wavs, tab_w=tw, tab_chi=chi, wav_unit=wav_unit, models=models, av=av, sources=sources,
                 pkg=pkg, filt_units=filt_units, rebuild=rebuild)
 
 
@@ -99,7 +108,8 @@ def fitter_wavs(case):
     converted to micron when stored in Models.wavelengths)"""
     from astropy import units as u
     if case.get('pkg', '').startswith('cube') and case.get('filt_units'):
-        return [float((w * u.micron).to(u.Unit(un)).to(u.micron).value) for w, un in zip(case['wavs'], case['filt_units'])]
+        req = case.get('req_wavs') or case['wavs']
+        return [float((w * u.micron).to(u.Unit(un)).to(u.micron).value) for w, un in zip(req, case['filt_units'])]
     return [float(w) for w in case['wavs']]
 
 
@@ -149,7 +159,7 @@ def build(case, scratch_dir):
                 val[i, 0, jj] = case['models'][i][case['wavs'].index(w)] if w in case['wavs'] else 1. + i + jj
         pk.write_cube_package(d, names, allw, val, val * 0.1, apertures_au=[100.], aperture_dependent=False)
         units = case.get('filt_units') or ['micron'] * len(case['wavs'])
-        fnames = [(w * u.micron).to(u.Unit(un)) for w, un in zip(case['wavs'], units)]
+        fnames = [(w * u.micron).to(u.Unit(un)) for w, un in zip(case.get('req_wavs') or case['wavs'], units)]
         fitter = pk.make_fitter(d, fnames, [1.] * len(fnames), ext, case['av'], use_memmap=(pkg == 'cube_memmap'))
         return fitter, names
     pk.write_conf(d, aperture_dependent=False)
@@ -227,7 +237,7 @@ def singular(case, src):
     import numpy as np
     ext_w = np.array(case['tab_w']); ext_c = np.array(case['tab_chi'])
     ks = set()
-    for f, w in zip(src['flags'], case['wavs']):
+    for f, w in zip(src['flags'], fitter_wavs(case)):
         if f in (1, 4):
             k = np.interp(w, ext_w, ext_c, left=0., right=0.)
             ks.add(round(float(k), 12))
@@ -256,6 +266,8 @@ def run_case(case):
             branches.add('lo_eq_hi')
         if case.get('pkg', '').startswith('cube') and any(un != 'micron' for un in case.get('filt_units', [])):
             branches.add('wav_filter_other_unit')
+        if case.get('pkg', '').startswith('cube') and case.get('req_wavs') and case['req_wavs'] != case['wavs']:
+            branches.add('wav_filter_off_grid')
         if lo == 0 or hi == 0:
             branches.add('range_end_zero')
         if case.get('wav_unit', 'micron') != 'micron':
@@ -370,7 +382,7 @@ def property_holds(case):
     try:
         fitter, names = build(case, d)
         lo, hi = case['av']
-        k = -0.4 * np.interp(case['wavs'], case['tab_w'], case['tab_chi'], left=0., right=0.) \
+        k = -0.4 * np.interp(fitter_wavs(case), case['tab_w'], case['tab_chi'], left=0., right=0.) \
             / np.interp(0.55, case['tab_w'], case['tab_chi'])
         for si, src in enumerate(case['sources']):
             if singular(case, src):
